@@ -770,6 +770,95 @@ theorem reject_canon_btsd_kind (p : Primary) (hp : p.wf = true ∧ p.crc.wire = 
   simp only [List.cons_append, List.nil_append]
   exact ⟨.other, reject_of_canon_err p hp _ (by rw [UInt8.toNat_ofNat']; omega) _ .other _ this⟩
 
+/-! ### endpoint-ID faults inside the data of a previous node block -/
+
+theorem readEid_scheme_unknown_d (code : Nat) (hc : code < 24) (hne : code ≠ 1 ∧ code ≠ 2) (x : Bytes) (d : Nat) :
+    readEid ⟨[0x82, UInt8.ofNat code] ++ x, d + 2⟩ = (.err .value, ⟨x, d + 2⟩) := by
+  have hr : readU8 ⟨UInt8.ofNat code :: x, d + 1⟩ = (.ok code, ⟨x, d + 1⟩) := by
+    have := readU8_enc code (by omega) x (d + 1)
+    simpa [encUint, encHead, hc] using this
+  have hh : readHead ⟨(0x82 : UInt8) :: UInt8.ofNat code :: x, d + 2⟩ = (.ok (.array 2), ⟨UInt8.ofNat code :: x, d + 2⟩) := by
+    simp [readHead, readArg]
+  simp only [readEid, readSeq, tagFuel, List.cons_append, List.nil_append]
+  rw [parseWith]
+  simp only [hh, kSeq, recursionChecked]
+  simp [visitEid, reqElem_succ, hr, hne.1, hne.2]
+
+theorem readEid_ipn_bad_d (x : Bytes) (d : Nat) (e : Err) (s' : St) (hx : readPairU64 ⟨x, d + 1⟩ = (.err e, s')) :
+    ∃ e s'', readEid ⟨[0x82, 0x02] ++ x, d + 2⟩ = (.err e, s'') := by
+  have hr : readU8 ⟨(0x02 : UInt8) :: x, d + 1⟩ = (.ok 2, ⟨x, d + 1⟩) := by
+    have := readU8_enc 2 (by omega) x (d + 1)
+    simpa [encUint, encHead] using this
+  have hv : visitEid (some 2) ⟨(0x02 : UInt8) :: x, d + 1⟩ = (.err e, s') := by
+    simp [visitEid, reqElem_succ, hr, hx]
+  have := readSeq_visit_err visitEid 2 (by omega) ((0x02 : UInt8) :: x) (d + 1) (by omega) e s' hv
+  exact ⟨e, _, by simpa [readEid, encArrayHead, encHead] using this⟩
+
+theorem readEid_ipn_node0_d (svc : Nat) (hs : svc < 24) (tail : Bytes) (d : Nat) :
+    ∃ e s', readEid ⟨[0x82, 0x02, 0x82, 0x00, UInt8.ofNat svc] ++ tail, d + 3⟩ = (.err e, s') := by
+  have h := readPairU64_enc 0 svc (by decide) (by rw [U64_eq]; omega) tail (d + 2) (by omega)
+  have h' : readPairU64 ⟨(0x82 : UInt8) :: 0x00 :: UInt8.ofNat svc :: tail, d + 2⟩ = (.ok (0, svc), ⟨tail, d + 2⟩) := by
+    simpa [encArrayHead, encUint, encHead, hs] using h
+  have hr : readU8 ⟨(0x02 : UInt8) :: 0x82 :: 0x00 :: UInt8.ofNat svc :: tail, d + 2⟩
+      = (.ok 2, ⟨0x82 :: 0x00 :: UInt8.ofNat svc :: tail, d + 2⟩) := by
+    have := readU8_enc 2 (by omega) (0x82 :: 0x00 :: UInt8.ofNat svc :: tail) (d + 2)
+    simpa [encUint, encHead] using this
+  have hv : visitEid (some 2) ⟨(0x02 : UInt8) :: 0x82 :: 0x00 :: UInt8.ofNat svc :: tail, d + 2⟩ = (.err .value, ⟨tail, d + 2⟩) := by
+    simp [visitEid, reqElem_succ, hr, h', withIpn]
+  have := readSeq_visit_err visitEid 2 (by omega) _ (d + 2) (by omega) .value ⟨tail, d + 2⟩ hv
+  exact ⟨.value, _, by simpa [readEid, encArrayHead, encHead] using this⟩
+
+theorem readEid_extra_item_d (tail : Bytes) (d : Nat) :
+    ∃ e s', readEid ⟨[0x83, 0x01, 0x00, 0x00] ++ tail, d + 2⟩ = (.err e, s') := by
+  refine ⟨.trailing, ⟨0x00 :: tail, d + 2⟩, ?_⟩
+  simp [readEid, readSeq, tagFuel, parseWith, readHead, readArg, kSeq, recursionChecked, visitEid, reqElem, nextElem,
+    readU8, kUint, P.pure, readString, kString, reject, seqEnd]
+
+theorem readEid_no_scheme_d (tail : Bytes) (d : Nat) :
+    ∃ e s', readEid ⟨[0x80] ++ tail, d + 2⟩ = (.err e, s') := by
+  refine ⟨.length, ⟨tail, d + 2⟩, ?_⟩
+  simp [readEid, readSeq, tagFuel, parseWith, readHead, readArg, kSeq, recursionChecked, visitEid, reqElem, nextElem]
+
+/-- every endpoint-ID fault of the property, at any reader depth of at least 3 -/
+theorem readEid_fault_d (bad : Bytes) (hbad : EidFault bad) (tail : Bytes) (d : Nat) :
+    ∃ e s', readEid ⟨bad ++ tail, d + 3⟩ = (.err e, s') := by
+  cases hbad with
+  | scheme code x hc h1 h2 =>
+    exact ⟨_, _, by simpa [List.append_assoc] using readEid_scheme_unknown_d code hc ⟨h1, h2⟩ (x ++ tail) (d + 1)⟩
+  | node0 svc hs => exact readEid_ipn_node0_d svc hs tail d
+  | extra => exact readEid_extra_item_d tail (d + 1)
+  | noScheme => exact readEid_no_scheme_d tail (d + 1)
+  | ipn0 =>
+    obtain ⟨s', h⟩ := (readPairU64_arity 0 0 (by omega) (by omega) tail (d + 2) (by omega)).1
+    simpa [List.append_assoc] using readEid_ipn_bad_d _ (d + 1) _ _ h
+  | ipn1 a ha =>
+    obtain ⟨s', h⟩ := (readPairU64_arity a 0 ha (by omega) tail (d + 2) (by omega)).2.1
+    simpa [List.append_assoc] using readEid_ipn_bad_d _ (d + 1) _ _ h
+  | ipn3 n a b hn3 hn ha hb =>
+    obtain ⟨s', h⟩ := (readPairU64_arity a b ha hb tail (d + 2) (by omega)).2.2 n hn3 hn
+    simpa [List.append_assoc] using readEid_ipn_bad_d _ (d + 1) _ _ h
+
+/-- **C19 (endpoint-ID faults in a previous node block).** The data of a previous node block is an
+    endpoint ID: with an unknown URI scheme code, ipn node number 0, an extra item, a missing scheme
+    code, or an ipn address of one or three items it does not decode — and neither does the bundle
+    that carries the block after a conformant primary block. -/
+theorem reject_prevnode_eid_fault (p : Primary) (hp : p.wf = true ∧ p.crc.wire = true)
+    (num fl t : Nat) (hn : num < 18446744073709551616) (hf : fl < 256) (ht : t < 256)
+    (bad : Bytes) (hbad : EidFault bad) (hl : bad.length < 18446744073709551616)
+    (count : Nat) (hc : count < 24) (hc5 : 5 ≤ count) (tail : Bytes) :
+    ∃ e, decodeBundle ([0x9f] ++ (encPrimary p ++ (encArrayHead count ++
+      (encUint 6 ++ (encUint num ++ (encUint fl ++ (encUint t ++ (encBytes bad ++ tail)))))))) = .err e := by
+  obtain ⟨e0, s0, h0⟩ := readEid_fault_d bad hbad [] 125
+  simp only [List.append_nil] at h0
+  have hd : decodeBtsd 6 bad = .err e0 := by
+    simp [decodeBtsd, PAYLOAD_BLOCK, BUNDLE_AGE_BLOCK, HOP_COUNT_BLOCK, PREVIOUS_NODE_BLOCK, fromSlice_err readEid bad e0 s0 h0, Res.map]
+  obtain ⟨n, rfl⟩ : ∃ n, count = n + 5 := ⟨count - 5, by omega⟩
+  have hv := visitCanon_bad_data 6 num fl t (by omega) hn hf ht bad hl e0 hd n tail
+  have := readCanon_of_visit_err (n + 5) hc _ .other ⟨tail, 126⟩ hv
+  rw [encArrayHead_small _ hc]
+  simp only [List.cons_append, List.nil_append]
+  exact ⟨.other, reject_of_canon_err p hp _ (by rw [UInt8.toNat_ofNat']; omega) _ .other _ this⟩
+
 /-! ### the hypotheses are satisfiable, and the faults are real faults -/
 
 /-- a conformant primary block: version 7, fragment, CRC-16, dtn destination, ipn source -/
